@@ -10,3 +10,5 @@ pub mod exec;
 pub mod driver;
 pub mod json;
 pub mod runner;
+#[cfg(feature = "async")]
+pub mod aexec;
